@@ -257,6 +257,47 @@ pub fn for_each_value(cfg: &Cfg, tag: &str, f: &ValueCheck<'_>) -> Stats {
     total
 }
 
+/// A sink that fails once more than `cap` bytes have been offered (keeps what fitted).
+pub struct LimitedSink {
+    pub cap: usize,
+    pub got: String,
+}
+impl std::fmt::Write for LimitedSink {
+    fn write_str(&mut self, s: &str) -> std::fmt::Result {
+        if self.got.len() + s.len() > self.cap {
+            let mut room = self.cap - self.got.len();
+            while room > 0 && !s.is_char_boundary(room) {
+                room -= 1;
+            }
+            self.got.push_str(&s[..room]);
+            return Err(std::fmt::Error);
+        }
+        self.got.push_str(s);
+        Ok(())
+    }
+}
+
+/// Hidden state across `Display` calls: format the value, its id and its extensions into sinks
+/// that fail at once / half-way / one byte short. Returns a description if what reached a sink is
+/// not a prefix of `full` (the complete rendering); the caller then compares a fresh `to_string()`
+/// with the earlier one - a buffer that is cleaned up on the success path only shows there.
+pub fn poison_display(loc: &Locale, full: &str) -> Option<String> {
+    use std::fmt::Write;
+    let mut bad = None;
+    for cap in [0usize, full.len() / 2, full.len().saturating_sub(1)] {
+        let mut w = LimitedSink { cap, got: String::new() };
+        let r = write!(w, "{loc}");
+        if !full.starts_with(&w.got) || (r.is_ok() && w.got != full) {
+            bad = Some(format!("write!(sink failing after {cap} bytes, locale) delivered {:?} (result {r:?}); the complete rendering is {full:?}", w.got));
+        }
+        let mut w = LimitedSink { cap: cap.min(2), got: String::new() };
+        let _ = write!(w, "{}", loc.id);
+        let mut w = LimitedSink { cap: cap.min(3), got: String::new() };
+        let _ = write!(w, "{}", loc.extensions);
+    }
+    bad
+}
+
 pub fn case_route(c: &Value) -> &str {
     c["kind"].as_str().unwrap_or("?")
 }
